@@ -38,17 +38,17 @@ type c27case struct {
 }
 
 type c27 struct {
-	r        *vkit.Run
-	keys     *keyset
-	attacker *keyset
-	muts     []fieldMut
-	fileN    int
-	reported map[string]bool
-	stats    map[string]*[3]int64 // name -> applied, detected, survived
-	sers     []string
-	crossN   int
-	survN    map[string]int
-	maxAlloc uint64
+	r         *vkit.Run
+	keys      *keyset
+	attacker  *keyset
+	muts      []fieldMut
+	fileN     int
+	reported  map[string]bool
+	stats     map[string]*[3]int64 // name -> applied, detected, survived
+	sers      []string
+	crossN    int
+	survN     map[string]int
+	maxAlloc  uint64
 	didCostly bool
 }
 
